@@ -627,10 +627,8 @@ class RecordContextMatcher:
 
             # Special case for __contains__, where we need to first unwrap all values matching the Type query
             if comptype in (ast.In, ast.NotIn) and isinstance(left, TypeMatcherInstance):
-                for v in left._values():
-                    if comp(v, right):
-                        return True
-                return False
+                # Use _op() so that the values of nested records are considered too, like for the other comparators
+                return left._op(comp, right)
             return comp(left, right)
         elif isinstance(node, ast.Call):
             if not isinstance(node.func, (ast.Attribute, ast.Name)):
